@@ -59,6 +59,9 @@ func (f *FuncVC) call(st *State, x *ssa.Call) *Val {
 	if con := f.contractFor(c); con != nil {
 		return f.applyContract(st, x, con, args)
 	}
+	if r, ok := f.fieldFuncCall(st, x, args); ok {
+		return r
+	}
 	if r, ok := f.libCall(st, x, args); ok {
 		return r
 	}
@@ -336,6 +339,20 @@ func (f *FuncVC) callEffects(x *ssa.Call, hs *havocSet) {
 		f.pure--
 		return
 	}
+	if !c.IsInvoke() && c.StaticCallee() == nil {
+		if ld, ok := c.Value.(*ssa.UnOp); ok {
+			if fa, ok := ld.X.(*ssa.FieldAddr); ok {
+				if pt, ok := fa.X.Type().Underlying().(*types.Pointer); ok {
+					if named, ok := pt.Elem().(*types.Named); ok && named.Obj().Pkg() != nil {
+						fld := pt.Elem().Underlying().(*types.Struct).Field(fa.Field)
+						if f.eng.fieldFuncs[named.Obj().Pkg().Path()+"."+named.Obj().Name()+"."+fld.Name()] != nil {
+							return // pure by declaration
+						}
+					}
+				}
+			}
+		}
+	}
 	if eff, ok := libEffects(x); ok {
 		for _, p := range eff {
 			hs.prefixes[p] = true
@@ -577,4 +594,79 @@ func (f *FuncVC) copyBuiltin(st *State, x *ssa.Call) *Val {
 		f.setHeap(st, hn, hs, store(h, d.Fs[0].T, fr))
 	}
 	return &Val{K: KInt, Ty: x.Type(), T: n, Lo: big.NewInt(0)}
+}
+
+// fieldFuncCall handles a call through a function-typed struct field that has
+// a declared (assumed) contract: the function is pure - its result is an
+// uninterpreted function of the function value and the arguments - and
+// satisfies the declared postconditions.
+func (f *FuncVC) fieldFuncCall(st *State, x *ssa.Call, args []*Val) (*Val, bool) {
+	c := &x.Call
+	if c.IsInvoke() || c.StaticCallee() != nil {
+		return nil, false
+	}
+	ld, ok := c.Value.(*ssa.UnOp)
+	if !ok {
+		return nil, false
+	}
+	fa, ok := ld.X.(*ssa.FieldAddr)
+	if !ok {
+		return nil, false
+	}
+	pt, ok := fa.X.Type().Underlying().(*types.Pointer)
+	if !ok {
+		return nil, false
+	}
+	named, ok := pt.Elem().(*types.Named)
+	if !ok || named.Obj().Pkg() == nil {
+		return nil, false
+	}
+	fld := pt.Elem().Underlying().(*types.Struct).Field(fa.Field)
+	con := f.eng.fieldFuncs[named.Obj().Pkg().Path()+"."+named.Obj().Name()+"."+fld.Name()]
+	if con == nil {
+		return nil, false
+	}
+	fv := f.val(st, c.Value)
+	recv := f.val(st, fa.X)
+	all := append([]*Val{recv}, args...)
+	if len(all) != len(con.Params) || fv.K != KFunc || fv.T == "" {
+		return nil, false
+	}
+	f.usedAssumed["field function "+con.Key()+": pure, "+con.Header] = true
+	f.oblige(st, "nil", f.srcAt(x.Pos())+" (call of nil function)", not(eq(fv.T, "0")))
+	// result = uninterpreted function of (function value, arguments)
+	resTy := x.Type()
+	var sorts, terms []string
+	sorts = append(sorts, "Int")
+	terms = append(terms, fv.T)
+	for _, a := range args {
+		ts, err := leafTerms(a)
+		if err != nil {
+			return nil, false
+		}
+		for _, l := range leaves(a) {
+			sorts = append(sorts, sortOfKindVal(l))
+		}
+		terms = append(terms, ts...)
+	}
+	i := 0
+	res := build(resTy, func(l Leaf) string {
+		fn := sym(fmt.Sprintf("ff:%s.%s%s", named.Obj().Name(), fld.Name(), l.Path))
+		f.sc.declareFun(fn, sorts, l.Sort)
+		i++
+		return "(" + fn + " " + strings.Join(terms, " ") + ")"
+	})
+	f.nameAndRange(st, res, "ff")
+	ev := &Eval{f: f, st: st, old: st, env: map[string]*Val{}, lets: map[string]ast_Expr{}, bound: map[string]*Val{}}
+	ev.pkg = f.eng.typesPkg(con.PkgPath, f.fn.Pkg.Pkg)
+	for k, p := range con.Params {
+		ev.env[p] = all[k]
+	}
+	if len(con.Results) == 1 {
+		ev.env[con.Results[0]] = res
+	}
+	for _, cl := range con.Ensures {
+		f.assume(st, ev.evalBool(cl.Expr))
+	}
+	return res, true
 }
